@@ -66,8 +66,14 @@ func (t *ServerTransport) send(packet *parser.Packet) error {
 	if err != nil {
 		return err
 	}
-	defer w.Close()
-	return packet.Encode(w, true)
+	err = packet.Encode(w, true)
+	// The message is flushed by Close. Its error must not be dropped: after a failed
+	// flush the connection has to be closed (the writer stays locked otherwise).
+	closeErr := w.Close()
+	if err == nil {
+		err = closeErr
+	}
+	return err
 }
 
 func (t *ServerTransport) Handshake(handshakePacket *parser.Packet, w http.ResponseWriter, r *http.Request) (sid string, err error) {
